@@ -265,6 +265,9 @@ def run(prop: str, tier: str, quiet: bool = False, repo_root: Optional[str] = No
     elif aerr:
         code = 2
         out("ANALYSIS-ERROR property=%s %s" % (prop, aerr))
+    if ctx is not None:
+        ctx.known_seen = seen
+        ctx.analysis_error = aerr
     if write:
         write_evidence(prop, tier, seed, ctx, mod, time.time() - t0, len(new), seen, analysis_error=aerr)
     if not quiet and ctx is not None:
